@@ -60,6 +60,8 @@ def outcome(acc, tag, case, fn, wellformed=False, size=None):
         acc.violation("foreign_exception", dict(case, exception=type(e).__name__), "%s: %s (innermost pyteal frame %s)" % (type(e).__name__, str(e)[:300], where))
         return None
     acc.counters["emitted"] += 1
+    if case.get("kind") in ("skeleton", "degenerate", "ladder") and acc.counters["emitted"] % 97 == 0:
+        acc.sample({k: (str(v)[:300] if k == "recipe" else v) for k, v in case.items()} | {"outcome": "TEAL, %d lines" % (str(r).count("\n") + 1)}, cap=3)
     return r
 
 
